@@ -72,6 +72,7 @@ type Opts struct {
 	StepBudget int
 	Trace      bool
 	Race       bool
+	YieldSites map[string]bool // access sites that are scheduling points (race-directed preemption)
 	Prefix     []int
 	PrefixSigs []uint64 // expected signatures for the prefix points (determinism check); may be nil
 }
@@ -101,9 +102,10 @@ type Sched struct {
 	chans map[unsafe.Pointer]*chanState
 
 	// race detector
-	raceOn bool
-	shadow map[unsafe.Pointer]*shadowLoc
-	Races  map[string]*RaceReport
+	raceOn     bool
+	yieldSites map[string]bool
+	shadow     map[unsafe.Pointer]*shadowLoc
+	Races      map[string]*RaceReport
 
 	finishing bool
 	// Frozen: environment choices take their default answer without becoming
@@ -131,6 +133,7 @@ func Run(o Opts, body func(s *Sched)) *Sched {
 		now:        Epoch,
 		chans:      map[unsafe.Pointer]*chanState{},
 		raceOn:     o.Race,
+		yieldSites: o.YieldSites,
 		hash:       1469598103934665603,
 	}
 	if s.stepBudget == 0 {
